@@ -79,8 +79,13 @@ def main(argv=None) -> int:
             case = w.get("case")
             if not case or "k" not in case:
                 continue
-            params = {k: v for k, v in case.items() if k != "k"}
-            mod.KINDS[case["k"]](ctx, **params)
+            fn = mod.KINDS[case["k"]]
+            import inspect
+            sig = inspect.signature(fn)
+            accepts_any = any(p_.kind is inspect.Parameter.VAR_KEYWORD for p_ in sig.parameters.values())
+            # witnesses carry extra annotations (failing step, letter names, ...): hand over only what the case kind takes
+            params = {k: v for k, v in case.items() if k != "k" and (accepts_any or k in sig.parameters)}
+            fn(ctx, **params)
             n += 1
         print(f"replayed {n} witness case(s) of {rec['signature']}")
         ctx.inconclusive = []
